@@ -91,6 +91,9 @@ func runListener(sc lnScen, idx int, seed int64) (*lnTrace, error) {
 	old := runtime.GOMAXPROCS(sc.Procs)
 	defer runtime.GOMAXPROCS(old)
 	fl := vh.NewFakeListener()
+	if sc.Close == "earlylate" {
+		fl.LateClose = 300 * time.Millisecond
+	}
 	ln := lw.WrapListener(fl)
 
 	type connInfo struct {
@@ -284,12 +287,22 @@ func runListener(sc lnScen, idx int, seed int64) (*lnTrace, error) {
 			shared.Add(vh.Ev{"e": "Stuck"})
 		}
 	}
-	if sc.Close == "early" {
+	if sc.Close == "early" || sc.Close == "earlylate" {
 		// the connections have been accepted and routed; those falling through wait in (or for) the hand-over channel
 		settle(300)
 	}
 	shared.Add(vh.Ev{"e": "LnClose"})
 	ln.Close()
+	if sc.Close == "earlylate" {
+		// the wrapper is closed, its accept loop has not noticed yet, and the consumer asks at once: a connection
+		// waiting in the hand-over channel is either delivered or closed - never dropped
+		if sc.Consumer == "absent" {
+			close(startAccept)
+		}
+		settle(600)
+		settle(1000)
+		close(release)
+	}
 	if sc.Close == "early" {
 		settle(200)
 		if sc.Consumer == "absent" {
